@@ -111,6 +111,7 @@ func runC07(w *World, r *Report, tier string) {
 	}
 	ruleZoomPassthru(w, r)
 	ruleIndexRange(w, r)
+	ruleFloatGuard(w, r, "operated.GetShiftingSpatialID")
 	guardRows(w, r, "C07")
 }
 
@@ -404,4 +405,103 @@ func nonSumEvidence(w *World, v ssa.Value, depth int) string {
 		}
 	}
 	return ""
+}
+
+// ruleFloatGuard: the vertical index is unbounded within 64 bits; a branch
+// that refuses the shift (leads only to the failure constant) and whose
+// condition looks at the vertical index or the vertical shift through a
+// float64 conversion cannot be an exact 64-bit overflow test: float64 has 53
+// bits, so near the ends of the range valid shifts are refused.
+func ruleFloatGuard(w *World, r *Report, entry string) {
+	r.Rule("FLOATGUARD", "no branch of the shift (and of the functions it calls) that leads only to the empty-ID failure depends on the vertical index or the vertical shift through a float64 conversion: the index is unbounded within 64 bits and float64 cannot represent its ends exactly")
+	f := lookupByName(w, entry)
+	if f == nil {
+		r.add("FLOATGUARD", entry, "?", Unresolved, "function not found")
+		return
+	}
+	e := scFor(w)
+	ke := kindsFor(w)
+	vert := ks(kF, kDF)
+	n := 0
+	for g := range closureOf(w, []*ssa.Function{f}) {
+		if g.Blocks == nil || pkgOf(g) == nil || pkgOf(g).Path() != modPath+"/operated" {
+			continue
+		}
+		name := w.FuncName(g)
+		for _, blk := range g.Blocks {
+			_, _, ifi := ifSuccs(blk)
+			if ifi == nil {
+				continue
+			}
+			// one side leads only to failure returns
+			onlyFail := false
+			for _, s := range blk.Succs {
+				reach := reachableFrom(s, nil)
+				any, all := false, true
+				for _, ret := range returnsOf(g) {
+					if reach[ret.Block()] {
+						any = true
+						if !e.isFailureReturn(g, ret) && !(len(ret.Results) == 1 && isEmptyString(ret.Results[0])) {
+							all = false
+						}
+					}
+				}
+				if any && all {
+					onlyFail = true
+				}
+			}
+			if !onlyFail {
+				continue
+			}
+			// the condition reads a vertical quantity through float64
+			bad := ""
+			seen := map[ssa.Value]bool{}
+			var walk func(v ssa.Value, d int)
+			walk = func(v ssa.Value, d int) {
+				if v == nil || d > 8 || seen[v] || bad != "" {
+					return
+				}
+				seen[v] = true
+				switch x := v.(type) {
+				case *ssa.Convert:
+					if isFloatType(x.Type()) && isIntType(x.X.Type()) {
+						if a := ke.Eval(x.X); a != nil && a.Scalar != 0 && a.Scalar&^vert == 0 {
+							bad = shortInstr(x)
+							return
+						}
+					}
+					walk(x.X, d+1)
+				case *ssa.BinOp:
+					walk(x.X, d+1)
+					walk(x.Y, d+1)
+				case *ssa.UnOp:
+					walk(x.X, d+1)
+				case *ssa.Phi:
+					for _, ed := range x.Edges {
+						walk(ed, d+1)
+					}
+				case *ssa.Call:
+					for _, a := range x.Call.Args {
+						walk(a, d+1)
+					}
+				}
+			}
+			walk(ifi.Cond, 0)
+			n++
+			key := fmt.Sprintf("FLOATGUARD / %s / refusing branch at %s", name, w.Pos(ifi.Pos()))
+			if bad != "" {
+				r.Add(Obligation{Rule: "FLOATGUARD", Key: key, Pos: w.Pos(ifi.Pos()), Status: Violated, Detail: "a branch that refuses the shift reads the vertical index / shift through " + bad + ": float64 holds 53 bits, shifts that stay within 64 bits are refused near the ends of the range", Canary: w.IsCanary(g)})
+			} else {
+				r.Add(Obligation{Rule: "FLOATGUARD", Key: key, Pos: w.Pos(ifi.Pos()), Status: Discharged, Detail: "the refusing branch does not look at the vertical index through floating point", Canary: w.IsCanary(g)})
+			}
+		}
+	}
+	if n == 0 {
+		r.add("FLOATGUARD", entry, w.Pos(f.Pos()), Info, "no refusing branch found")
+	}
+}
+
+func isEmptyString(v ssa.Value) bool {
+	s, ok := constString(v)
+	return ok && s == ""
 }
